@@ -64,6 +64,13 @@ def instantiate(formulas, depth=DEPTH, reveal=(), only=None):
 
 def build_query(vc, depth=DEPTH, extra_assumptions=()):
     fs = list(vc.assumptions) + list(extra_assumptions) + [z3.Not(vc.goal)]
+    # non-recursive definitions a lemma proof wants expanded in place (equations between sequence-valued
+    # uninterpreted functions defeat cvc5; the expanded terms do not)
+    for name in (getattr(vc, "inline_defs", None) or ()):
+        f = SPEC[name]
+        vs = [z3.Var(i, f.decl.domain(i)) for i in range(f.decl.arity())]
+        body = f.define(*vs)
+        fs = [z3.substitute_funs(x, (f.decl, body)) for x in fs]
     # pattern-less lemmas are only usable through explicit ground instances (hints); giving the bare
     # quantifier to the solver would only start model-based instantiation
     lem = [LEMMAS[n].formula for n in sorted(vc.uses) if n in LEMMAS and (LEMMAS[n].patterns or not LEMMAS[n].vars)]
@@ -179,6 +186,8 @@ def _solve_one(task):
                     p = subprocess.run(cmd, capture_output=True, text=True, timeout=timeout_ms / 1000 + 10)
                     out = p.stdout.strip().splitlines()
                     st = out[0].strip() if out and out[0].strip() in ("sat", "unsat", "unknown") else "unknown"
+                    if out and out[0].startswith("(error"):
+                        res["tried"].append("%s:ERROR:%s" % (be, " ".join(out[:2])[:160]))
                 finally:
                     os.unlink(path)
         except Exception as ex:  # a back-end failure is never a verdict
